@@ -198,6 +198,10 @@ func (h *Handler) receive(ctx context.Context, conn *websocket.Conn, queue chan 
 			default:
 				continue
 			}
+			if len(data) < 4 {
+				h.reportError(ctx, errChan, core.InvalidRequestError{})
+				return
+			}
 			index, ok := parseHeader(data[:4])
 			if !ok {
 				h.reportError(ctx, errChan, core.InvalidRequestError{})
